@@ -89,7 +89,7 @@ class QueryMachine(SystemMachine):
                   'blockchain.scripthash.get_balance'][op[3]]
         if getattr(bp, '_c10_wrapped', False):
             bp._c10_armed.append((c, method, sh))
-            await self.apply(['force', op[3]], loop)
+            await self.trigger_reorg(op[3], loop)
             return
         real = bp.backup_block
         bp._c10_armed = [(c, method, sh)]
@@ -101,11 +101,31 @@ class QueryMachine(SystemMachine):
             for cl, m, s in armed:
                 if not cl.closed:
                     loop.call_soon(machine.send, cl, m, [s], {'kind': 'query', 'method': m})
+                    # a by-height read of the block below, delivered late: if that block is
+                    # replaced too, the read must be redone before it is cached
+                    def rule(job, left=[1]):
+                        if left[0] and job.name == 'fs_tx_hashes_at_blockheight':
+                            left[0] = 0
+                            loop.job_time_rule = None
+                            return 0.0, 3.0
+                        return 0.0, 0.0
+                    loop.job_time_rule = rule
+                    loop.call_soon(machine.send, cl, 'blockchain.transaction.id_from_pos',
+                                   [bp.state.height, 0, False],
+                                   {'kind': 'query', 'method': 'id_from_pos'})
                     machine.window_queries += 1
                     machine.info['classes'].add('query_inside_reorg_window')
         bp.backup_block = backup_block
-        # ... and a reorganisation follows (forced: it may end at the same height)
-        await self.apply(['force', op[3]], loop)
+        await self.trigger_reorg(op[3], loop)
+
+    async def trigger_reorg(self, mode, loop):
+        # ... and a reorganisation follows (forced: it may end at the same height; natural of
+        # depth 2: the block below the first one undone is replaced as well)
+        if mode == 2:
+            await self.apply(['fork', 2, [{'cb': [[1, 0]], 'nonce': 7, 'coll': None,
+                                          'txs': [{'ins': [0], 'outs': [[2, 1]]}], 'mp': []}]], loop)
+        else:
+            await self.apply(['force', mode], loop)
 
     async def ask(self, client, method, params):
         r = await client.call(method, params)
